@@ -129,6 +129,27 @@ Theorem C16_incremental_eq_batch_3d_from_empty : forall (sc : smooth_cfg) (sm : 
 Proof. intros sc sm sh h Hx Hy Hz Hh. apply incremental_eq_batch3; auto. apply init3_consistent. Qed.
 Print Assumptions C16_incremental_eq_batch_3d_from_empty.
 
+(* The call site in colvarbias_abf::update(): each step has a bin; the delivered total force belongs to force_bin
+   (= bin with same-step forces, = the previous step's bin with lagged forces, as in NAMD); when a sample is taken
+   (not the first step unless same-step; force_bin inside the grid) the code does
+   acc_force(force_bin, f); update_div_neighbors(force_bin).  For EVERY history of (bin, force) steps, both force-timing
+   conventions, bins inside or outside the grid, any carrier: incremental divergence = batch divergence. *)
+Theorem C16_abf_site_incremental_eq_batch_2d : forall (T : Type) (O : NumOps T) (sc : smooth_cfg) (sm : bool) (sh : shape2 (T:=T))
+    (same : bool) (st0 : state2 (T:=T)) (pre l : list ((Z * Z) * (T * T))),
+  (0 < nxg sh)%Z -> (0 < nyg sh)%Z ->
+  let st := abf_run2 O sc sm true sh same (set_div2 O sc sm sh (preload2 O st0 pre)) l in
+  dump2 sh (dv2 st) = dump2 sh (dv2 (set_div2 O sc sm sh st)).
+Proof. intros T O sc sm sh same st0 pre l. exact (abf_site_incremental_eq_batch2 O sc sm sh same st0 pre l). Qed.
+Print Assumptions C16_abf_site_incremental_eq_batch_2d.
+
+Theorem C16_abf_site_incremental_eq_batch_3d : forall (T : Type) (O : NumOps T) (sc : smooth_cfg) (sm : bool) (sh : shape3 (T:=T))
+    (same : bool) (st0 : state3 (T:=T)) (pre l : list ((Z * Z * Z) * (T * T * T))),
+  (0 < mxg sh)%Z -> (0 < myg sh)%Z -> (0 < mzg sh)%Z ->
+  let st := abf_run3 O sc sm true sh same (set_div3 O sc sm sh (preload3 O st0 pre)) l in
+  dump3 sh (dv3 st) = dump3 sh (dv3 (set_div3 O sc sm sh st)).
+Proof. intros T O sc sm sh same st0 pre l. exact (abf_site_incremental_eq_batch3 O sc sm sh same st0 pre l). Qed.
+Print Assumptions C16_abf_site_incremental_eq_batch_3d.
+
 (* what "batch" means: set_div stores at every PMF point the divergence of the current gradient data *)
 Theorem C16_set_div_is_divergence_2d : forall (T : Type) (O : NumOps T) (sc : smooth_cfg) (sm : bool) (sh : shape2 (T:=T))
     (st : state2 (T:=T)) (p : Z * Z),
@@ -359,3 +380,20 @@ Example C16_example_1d :
   (* write_1D_integral, periodic with an empty bin: the column ends where it starts and its minimum is 0 *)
   ti_integral1 Qops (mkSmooth true 0 1) true (1#1)%Q [2#1; 0#1]%Q [1; 0]%Z = [0; 1; 0]%Q.
 Proof. repeat split; vm_compute; reflexivity. Qed.
+
+(* The statement is FALSE if the neighbourhood of any other bin is refreshed instead (site_ok = false: update_div_neighbors(bin)
+   after acc_force(force_bin)): lagged forces, 2 x 2 non-periodic bins, steps in bins (0,0) then (1,1): the sample of the
+   second step lands in force_bin = (0,0) while the divergence is refreshed around (1,1).  With the call as coded the
+   same history is consistent. *)
+Example C16_abf_site_wrong_bin_counterexample :
+  let sh := mkShape2 false false 2 2 1%Q 1%Q in
+  let sc := mkSmooth true 0 1 in
+  let l := [((0, 0)%Z, (1#1, 2#1)%Q); ((1, 1)%Z, (4#1, -2#1)%Q)] in
+  let bad := abf_run2 Qops sc false false sh false (init2 Qops) l in
+  let good := abf_run2 Qops sc false true sh false (init2 Qops) l in
+  dump2 sh (dv2 bad) <> dump2 sh (dv2 (set_div2 Qops sc false sh bad)) /\
+  dump2 sh (dv2 good) = dump2 sh (dv2 (set_div2 Qops sc false sh good)) /\
+  dump2 sh (dv2 good) = [-1; -3; 0; 3; 1; 0; 0; 0; 0]%Q.
+Proof.
+  cbv zeta. split; [|split]; [intros H; vm_compute in H; discriminate | vm_compute; reflexivity | vm_compute; reflexivity].
+Qed.
